@@ -51,6 +51,12 @@ def histogram(line):
         keys.append("spare-wrap-rows-for-a-full-last-block")
     if "sw" in f and f["sw"] != "-":
         keys.append("setters-changed-between-calls")
+        if len(f["sw"].split(":")[-1]) > 7:
+            keys.append("new-block-size>1e7(word-level-model-only)")
+    if b > 10 ** 7:
+        # the unary nat-level model cannot take such a block size: the word-level model (ScanWord.v) is compared
+        # instead and the replay of the skeleton scanner (ShapeConcrete.v) is SKIPPED for these cases
+        keys.append("block-size>1e7(word-level-model-only,skeleton-replay-skipped)")
     try:
         import struct
         for row in f.get("pssm", "").split("/"):
